@@ -176,8 +176,8 @@ pub fn run(args: &[String]) -> i32 {
             });
             let next_fresh = on_thread(|| { let mut s = new_scanner(&rules, blocks, Some(1)); match &mut s { AnyScanner::Contig(x) => { let _ = x.set_global("g_slow", false); } AnyScanner::Blocks(x) => { let _ = x.set_global("g_slow", false); } _ => {} } scan_once(&mut s, b"abc") });
             let other_base = on_thread(|| { let mut s = new_scanner(&rules, false, None); if let AnyScanner::Contig(x) = &mut s { let _ = x.set_global("g_slow", false); } scan_once(&mut s, b"xx abc xx") });
-            // the heartbeat has a one-second period: the scan must end between 0 and timeout + 2 periods
-            let prompt = secs < 3.5 && matches!(timed, Outcome::Timeout);
+            // the heartbeat has a one-second period: the scan must end well within 10 s even on a loaded machine
+            let prompt = secs < 10.0 && matches!(timed, Outcome::Timeout);
             stats.inc("real_heartbeat_runs"); distinct += 1;
             let case = format!("mkCase [] 0%N 0%N ({}) OTimeout {} {} {} {} {}", timed.coq(), coq_n(digest_outcome(&next_used)), coq_n(digest_outcome(&next_fresh)),
                 coq_n(digest_outcome(&other)), coq_n(digest_outcome(&other_base)), coq_bool(prompt));
